@@ -119,7 +119,9 @@ Definition c03_check (type2 : bool) (id key : bytes) (now : N) (reply0 : bytes) 
   | lg :: cmds =>
       match spec_login type2 id key now with
       | Frame want =>
-          if negb (bytes_eqb lg want) then s2l "first frame is not the login frame of this API for this clock reading"
+          (* length field and signature are C01's: the login frame is compared on bytes 4 .. |frame| - 4 *)
+          if negb (bytes_eqb (pyslice 4 (length want - 4) lg) (pyslice 4 (length want - 4) want))
+          then s2l "first frame is not the login frame of this API for this clock reading"
           else if negb ((minc <=? length cmds) && (length cmds <=? maxc))%nat then s2l "wrong number of command frames"
           else if negb (forallb (fun f => bytes_eqb (pyslice 8 12 f) (pyslice 8 12 reply0)) cmds)
                then s2l "a command frame does not carry the session id of this login reply"
